@@ -108,6 +108,13 @@ class Sim:
             c = rng.choice([0, 1, 1, 2, 3, 5, 8])
             self.grow(r, c, "insn")
             return f"insn {r} {p} {c} {s}"
+        if k < 40 and n > 0:
+            # a range of the vector itself, mostly in front of the insertion point
+            p = self.pos(r)
+            b = rng.below((p if rng.chance(4, 5) else n) + 1)
+            a = rng.below(b + 1)
+            self.grow(r, b - a, "insr-self" + ("" if b <= p else "-nospec"))
+            return f"insr {r} {p} self {a} {b}"
         if k < 50:
             p = self.pos(r)
             c = rng.choice([0, 1, 2, 3, 4, 6, 9])
@@ -370,6 +377,11 @@ def single_cases(n, r=0, full=True):
         for xs in ("-", "70", "70,71,72") if full else ("70,71",):
             for k in KINDS if full else ("fwd", "inp"):
                 cases.append(f"insr {r} {p} {k} {xs}")
+        # a range of the vector itself: in front of the insertion point (specified), and elsewhere (model vs code only)
+        for a in range(n + 1):
+            for b in range(a, n + 1):
+                if full or b <= p:
+                    cases.append(f"insr {r} {p} self {a} {b}")
         if full:
             # long enough for the single-pass path to reallocate more than once
             for k in ("fwd", "inp"):
